@@ -7,6 +7,8 @@
 #include <string.h>
 #include "h3api.h"
 #include "h3Index.h"
+#include "algos.h"
+#include "iterators.h"
 #include "spec.h"
 
 /* allocator shim (library is built with -DH3_ALLOC_PREFIX=h3v_) */
